@@ -20,6 +20,7 @@ from props import common as K
 
 META = {
     "level": "other",
+    "technique": "static analysis of type-checked MIR (rustc_private driver): call-graph reachability (with callback closure) and panic-site enumeration from MIR; discharge by constant folding, abstract interpretation and idiom rules; guard-dominance witnesses for a reviewed table; recursion / loop-progress / allocation-provenance rules",
     "explanation": "Call-graph reachability from every decoding entry point (functions taking bcder decode types, the "
                    "decode/read entry points of the eleven object types) and from every exported by-reference accessor, "
                    "iterator and trait method of the decoded types' field closure; every panic-capable construct reached "
